@@ -189,6 +189,9 @@ def shards(tier):
     # (state carried in the temporary buffer and the escape flags shows up only after several constructs in a row)
     for i in range(4):
         out.append({"kind": "rawgrammar", "n": 8000 if quick else 300000})
+    # (2c) the script-data sub-machine (escaped / double-escaped states) exhaustively over its own nine tokens
+    for i in range(3):
+        out.append({"kind": "scriptenum", "part": i, "of": 3, "len": 6 if quick else 7})
     # (3) hypothesis
     for i in range(8):
         out.append({"kind": "hyp", "n": 4000 if quick else 150000})
@@ -240,6 +243,16 @@ def run_shard(desc, seed, tier):
                 n += 1
         acc.extra["enumerated"] = n
         acc.exhaustive = True
+    elif kind == "scriptenum":
+        SA = ["<!--", "-->", "<script", "</script>", " ", ">", "-", "x", "<"]
+        n = 0
+        for ln in range(1, desc["len"] + 1):
+            for k, tup in enumerate(itertools.product(SA, repeat=ln)):
+                if k % desc["of"] != desc["part"]:
+                    continue
+                one({"text": "".join(tup), "state": "script_data", "last": "script", "cdata": False})
+                n += 1
+        acc.extra["script_sequences"] = acc.extra.get("script_sequences", 0) + n
     elif kind == "rawgrammar":
         AL = ["<!--", "-->", "<script", "</script", "<script>", "</script>", ">", " ", "<", "</", "a", "</b>", "-", "x", "<s", "/", "</title>", "</style>", "<!-", "--", "<b", "</a>", "</a ", "&amp;", "\x00", "<a>", "</xmp>"]
         strat = st.tuples(st.lists(st.sampled_from(AL), min_size=3, max_size=12).map("".join),
